@@ -42,16 +42,73 @@ None == "none"
 Unk  == "UNK"         \* a mechanism name nobody implements
 
 ToSet(s) == {s[i] : i \in 1..Len(s)}
-Payloads == {"ok", "empty", "eq", "bad"}     \* decodable | "" | "=" | not base64
+
+(* Payloads.  What stands between the tags of <challenge/>, <success/>, <auth/> and      *)
+(* <response/> is base64 (RFC 4648 section 4, with padding; RFC 6120 6.4.2: a single "="  *)
+(* stands for the empty payload).  A payload is modelled as the string it is, over        *)
+(*    1 = a character of the base64 alphabet     2 = the pad character "="                *)
+(*    3 = a character outside the alphabet       4 = a blank, 5 = a line feed             *)
+(* and classified by the grammar alone:                                                   *)
+(*    empty    nothing                  eq   the single "="                               *)
+(*    ok       groups of four alphabet characters, the last one padded with at most two   *)
+(*    lenient  blanks / line feeds inside or around what is otherwise empty, eq or ok     *)
+(*             (RFC 4648 3.3 lets a decoder ignore them only if told so; left to the      *)
+(*             session)                                                                   *)
+(*    bad      everything else: characters outside the alphabet, a length that is not a   *)
+(*             multiple of four, padding in the wrong place or too much of it             *)
+B64 == 1
+Pad == 2
+Outside == 3
+Ws  == {4, 5}
+PSyms == 1..5
+Strict(q) ==
+  /\ Len(q) > 0 /\ Len(q) % 4 = 0
+  /\ \A i \in 1..Len(q) : q[i] \in {B64, Pad}
+  /\ \A i \in 1..Len(q) : q[i] = Pad => i >= Len(q) - 1 /\ q[Len(q)] = Pad
+NoWs(p) == SelectSeq(p, LAMBDA c : c \notin Ws)
+PClass(p) ==
+  IF p = <<>> THEN "empty"
+  ELSE IF p = <<Pad>> THEN "eq"
+  ELSE IF Strict(p) THEN "ok"
+  ELSE IF (\E i \in 1..Len(p) : p[i] \in Ws) /\ (NoWs(p) \in {<<>>, <<Pad>>} \/ Strict(NoWs(p))) THEN "lenient"
+  ELSE "bad"
+Undecodable(x) == PClass(x.p) = "bad"
+MayBeRefused(x) == PClass(x.p) \in {"bad", "lenient"}
+
+(* one payload of every class: the alphabet of the exhaustive trees *)
+Payloads == {<<1, 1, 1, 1>>, <<>>, <<Pad>>, <<Outside, Outside, Outside, Outside>>, <<1, 1, 4, 1, 1>>}
+(* The shapes, by length class (0, "=", 1, 2, 3, 4, 5 and more) and by alphabet: every    *)
+(* string of up to three characters over {alphabet, pad, outside}; of four characters     *)
+(* everything over {alphabet, pad} and one outside character at every place; longer ones  *)
+(* around the next group boundary; blanks and line feeds at every place of short strings. *)
+Rep(n, c) == [i \in 1..n |-> c]
+InsertAt(q, i, c) == SubSeq(q, 1, i) \o <<c>> \o SubSeq(q, i + 1, Len(q))
+ReplaceAt(q, i, c) == [q EXCEPT ![i] = c]
+Shapes ==
+  UNION {[1..n -> {B64, Pad, Outside}] : n \in 0..3}
+  \cup [1..4 -> {B64, Pad}]
+  \cup {ReplaceAt(Rep(4, B64), i, Outside) : i \in 1..4} \cup {Rep(4, Outside)}
+  \cup {Rep(n, B64) : n \in 5..9} \cup {Rep(64, B64), Rep(65, B64)}
+  \cup {Rep(n, B64) \o <<Pad>> : n \in {4, 6, 7}} \cup {Rep(n, B64) \o <<Pad, Pad>> : n \in {5, 6}}
+  \cup {ReplaceAt(Rep(8, B64), i, c) : i \in {1, 4, 5, 8}, c \in {Outside, Pad}}
+  \cup UNION {{InsertAt(q, i, w) : i \in 0..Len(q), w \in Ws} :
+                q \in {<<>>, <<Pad>>, <<B64>>, <<Outside>>, Rep(3, B64), Rep(4, B64), <<1, 1, 2, 2>>}}
 
 (* What a peer can put on the wire at one step (also emitted for the driver).       *)
-ClientAlphabet ==          \* sent TO a client
-  {[k |-> kk, p |-> pp, m |-> ""] : kk \in {"challenge", "success"}, pp \in Payloads}
-  \cup {[k |-> kk, p |-> "", m |-> ""] : kk \in {"failure", "foreign", "other", "chardata", "end", "eof"}}
+Item(k, p, m) == [k |-> k, p |-> p, m |-> m]
+ClientAlphabetOver(P) ==    \* sent TO a client
+  {Item(kk, pp, "") : kk \in {"challenge", "success"}, pp \in P}
+  \cup {Item(kk, <<>>, "") : kk \in {"failure", "foreign", "other", "chardata", "end", "eof"}}
+ClientAlphabet == ClientAlphabetOver(Payloads)
 ServerAlphabetFor(names) == \* sent TO a server; names: mechanism attribute values tried
-  {[k |-> "auth", p |-> pp, m |-> mm] : pp \in Payloads, mm \in names}
-  \cup {[k |-> "response", p |-> pp, m |-> ""] : pp \in Payloads}
-  \cup {[k |-> kk, p |-> "", m |-> ""] : kk \in {"abort", "failure", "foreign", "other", "chardata", "end", "eof"}}
+  {Item("auth", pp, mm) : pp \in Payloads, mm \in names}
+  \cup {Item("response", pp, "") : pp \in Payloads}
+  \cup {Item(kk, <<>>, "") : kk \in {"abort", "failure", "foreign", "other", "chardata", "end", "eof"}}
+(* every answer of a server / every request of a client with every shape; a <failure/>    *)
+(* normally holds a condition element (p = <<>>), here also text of every shape            *)
+ShapedClient == {Item(kk, pp, "") : kk \in {"challenge", "success"}, pp \in Shapes}
+                \cup {Item("failure", pp, "") : pp \in {q \in Shapes : Len(q) <= 2}}
+ShapedServer == {Item("auth", pp, "M1") : pp \in Shapes} \cup {Item("response", pp, "") : pp \in Shapes}
 (*  foreign  = an element outside the SASL namespace                                *)
 (*  other    = a SASL-namespace element with another name (client side: <auth/>,    *)
 (*             server side: <challenge/>)                                           *)
@@ -146,24 +203,34 @@ CAuth ==
   /\ UNCHANGED <<sess, role, local, adv, selected, stepIdx, mechDone, mechErr, successSeen, permitted,
                  authn, npeer>>
 
-(* The mechanism is complete: only <success/> can end the exchange well.  Whether a *)
-(* <success/> whose payload cannot be decoded counts is left to the session.        *)
+(* The receiver signals success with <success/>, empty or holding base64 (RFC 6120   *)
+(* 6.4.6).  A <success/> whose content is not a payload at all is no such signal: it *)
+(* never stands for the empty one, whatever its length.                              *)
+SuccessSignal(x) == x.k = "success" /\ ~Undecodable(x)
+
+(* The mechanism is complete: only <success/> can end the exchange well.  After one  *)
+(* that is malformed the session fails or goes on waiting for the signal.            *)
 CRecvFinal(x) ==
   /\ role = "client" /\ pc = "c_final"
   /\ npeer' = npeer + 1
-  /\ IF x.k = "success"
+  /\ IF SuccessSignal(x)
      THEN /\ successSeen' = TRUE
-          /\ pc' \in (IF x.p = "bad" THEN {"finish", "fail"} ELSE {"finish"})
+          /\ pc' \in (IF MayBeRefused(x) THEN {"finish", "fail"} ELSE {"finish"})
+     ELSE IF x.k = "success"
+     THEN /\ successSeen' = successSeen
+          /\ pc' \in {"fail", "c_final"} \cup (IF "MalformedSuccessCounts" \in Dev THEN {"finish"} ELSE {})
      ELSE successSeen' = successSeen /\ pc' = "fail"
   /\ UNCHANGED <<sess, role, local, adv, selected, stepIdx, mechDone, mechErr, permitted, authn>>
 
-(* The mechanism wants more: <challenge/> and <success/> payloads are handed to it. *)
+(* The mechanism wants more: <challenge/> and <success/> payloads are handed to it  *)
+(* (what a session hands to the mechanism for a payload it cannot decode, if it goes *)
+(* on at all, is its business: the mechanism judges the data).                       *)
 CRecvLoop(x) ==
   /\ role = "client" /\ pc = "c_loop"
   /\ npeer' = npeer + 1
   /\ IF x.k \in {"challenge", "success"}
-     THEN /\ successSeen' = (successSeen \/ x.k = "success")
-          /\ pc' \in (IF x.p = "bad" THEN {"c_step", "fail"} ELSE {"c_step"})
+     THEN /\ successSeen' = (successSeen \/ SuccessSignal(x))
+          /\ pc' \in (IF MayBeRefused(x) THEN {"c_step", "fail"} ELSE {"c_step"})
      ELSE successSeen' = successSeen /\ pc' = "fail"
   /\ UNCHANGED <<sess, role, local, adv, selected, stepIdx, mechDone, mechErr, permitted, authn>>
 
@@ -189,7 +256,7 @@ SAdvertise(L) ==
   /\ UNCHANGED <<sess, role, local, selected, stepIdx, mechDone, mechErr, successSeen, permitted,
                  authn, npeer>>
 
-StepOrFail(x) == IF x.p = "bad" THEN {"s_step", "fail"} ELSE {"s_step"}
+StepOrFail(x) == IF MayBeRefused(x) THEN {"s_step", "fail"} ELSE {"s_step"}
 
 (* Dispatch on the element read.  <auth/> starts a NEW negotiator for a mechanism   *)
 (* that we configured and advertised, anything else named there is refused without  *)
